@@ -405,6 +405,20 @@ func (g *vGen) lockOp() vOp {
 			}
 		}
 	}
+	if g.profile == 9 { // wild: every flag bit (less-lock-version, reverse-key, keep-alive, tree lock, from-aof, …) except the millisecond
+		// units (real time) and require-ack (needs the ack machinery); judged for crashes and hangs only
+		o.flag = r.Intn(256)
+		o.tflag = r.Intn(65536) &^ (0x0400 | 0x1000)
+		o.eflag = r.Intn(65536) &^ 0x0400
+		if r.Intn(2) == 0 { // few bits at a time as well
+			o.tflag = 1 << uint(r.Intn(16)) &^ (0x0400 | 0x1000)
+			o.eflag = 1 << uint(r.Intn(16)) &^ 0x0400
+			o.flag = []int{0, 0, 1, 2, 8, 16}[r.Intn(6)]
+			if r.Intn(3) == 0 {
+				o.tflag |= 0x0200
+			}
+		}
+	}
 	if g.profile == 2 { // queue-heavy: exclusive locks, long waits, priorities
 		o.count = vPick(r, []int{0, 1}, []int{80, 20})
 		o.timeout = vPick(r, []int{3, 5, 9, 20, 60}, []int{20, 20, 20, 20, 20})
@@ -578,6 +592,7 @@ func vEngineRun(t *testing.T, mode string, profileOf func(i int) int, opsPer int
 			x.keys = append(x.keys, g.keyBase+k*g.step())
 		}
 		x.mon = vNewMonitor(out, x)
+		x.mon.crashOnly = g.profile == 9
 		g.statf = out.stat
 		g.whint = func(key int) (int, bool, bool) {
 			ks := v.keySnap(key)
@@ -635,14 +650,25 @@ func vEngineRun(t *testing.T, mode string, profileOf func(i int) int, opsPer int
 		}
 		line := fmt.Sprintf("engine %d %s", now0, strings.Join(strs, ";"))
 		x.mon.line = line
+		if g.profile == 9 {
+			line = "# wild " + line
+		}
 		if bad != "" {
-			out.emit(line, strings.Join(x.obs, ";")+";"+bad)
+			if g.profile == 9 {
+				out.emit(line, line)
+			} else {
+				out.emit(line, strings.Join(x.obs, ";")+";"+bad)
+			}
 			out.monitor("C13:engine-"+strings.Fields(bad)[0], "the real engine "+bad+" during a sequential operation sequence", map[string]string{"ops": line})
 			v = vNewSeq(3, 0xff) // the old instance may hold a shard mutex
 			keyCount0 = v.counters().KeyCount
 			continue
 		}
-		out.emit(line, strings.Join(x.obs, ";"))
+		if g.profile == 9 {
+			out.emit(line, line) // not a model line
+		} else {
+			out.emit(line, strings.Join(x.obs, ";"))
+		}
 		x.mon.flush()
 		// let the dead wheel entries of this sequence be swept, then every key record must be gone again
 		v.onReply = nil
@@ -658,6 +684,9 @@ func vEngineRun(t *testing.T, mode string, profileOf func(i int) int, opsPer int
 }
 
 func init() {
+	vModes["enginewild"] = func(t *testing.T) {
+		vEngineRun(t, "enginewild", func(i int) int { return 9 }, vEnvInt("VERIF_OPS", 40))
+	}
 	vModes["engine"] = func(t *testing.T) {
 		vEngineRun(t, "engine", func(i int) int { return []int{0, 0, 1, 2, 3}[i%5] }, vEnvInt("VERIF_OPS", 40))
 	}
